@@ -431,3 +431,85 @@ func H_C09_two_column_pages() {
 	}
 	vReach("end")
 }
+
+// vWordLine appends the words of one text line as word-level fragments (width = 0.5 em per character).
+func vWordLine(out *[]text.TextFragment, font string, x, y, fs float64, words ...string) {
+	for _, w := range words {
+		ww := float64(len(w)) * fs * 0.5
+		*out = append(*out, text.TextFragment{Text: w, X: x, Y: y, Width: ww, Height: fs, FontName: font, FontSize: fs, Direction: text.LTR})
+		x += ww + fs*0.5
+	}
+}
+
+func vSortedNonSpace(s string) string {
+	var b []byte
+	for i := 0; i < len(s); i++ {
+		if s[i] != ' ' && s[i] != '\n' && s[i] != '\t' {
+			b = append(b, s[i])
+		}
+	}
+	for i := 1; i < len(b); i++ {
+		for j := i; j > 0 && b[j-1] > b[j]; j-- {
+			b[j-1], b[j] = b[j], b[j-1]
+		}
+	}
+	return string(b)
+}
+
+// H_C09_elements_conserve_on_whole_pages: on whole pages where the heading/list detectors and the reading-order
+// paragraphs segment the lines differently, the analysis elements still carry every input character exactly once.
+//
+//symgo:harness prop=C09 kernel=K7-elements-on-whole-pages
+//symgo:desc two word-level single-column pages (enumerated): (a) four body lines, a bold ALL-CAPS line centred at body size and leading, four body lines - the heading detector isolates the centred line, the reading-order paragraphs glue it to the lines below; (b) a line, a bullet item, an indented plain line, a second bullet item, a line - the list's box covers the plain line between its items; the indentation of the plain line / the offset of the centred line is enumerated over three values: the non-white-space characters of Analyze().Elements equal those of the input as a multiset (ASCII texts)
+func H_C09_elements_conserve_on_whole_pages() {
+	var in []text.TextFragment
+	y := 700.0
+	if vAnyIntIn(0, 1) == 0 {
+		body := [][]string{
+			{"Meanwhile", "the", "weather", "turned", "colder", "than", "anyone", "had", "expected", "for", "the", "season"},
+			{"so", "the", "stalls", "closed", "early", "and", "people", "hurried", "off", "with", "their", "bags", "held"},
+			{"against", "the", "wind", "that", "came", "from", "north", "over", "the", "hills", "and", "across", "town"},
+			{"until", "the", "square", "was", "empty", "and", "quiet", "and", "only", "the", "pigeons", "were", "left"},
+		}
+		for _, l := range body {
+			vWordLine(&in, "Helvetica", 50, y, 10, l...)
+			y -= 12
+		}
+		bb := fragmentsBBox(in)
+		off := []float64{0, -20, 15}[vAnyIntIn(0, 2)]
+		vWordLine(&in, "Helvetica-Bold", bb.X+bb.Width/2-45+off, y, 10, "SUMMARY", "OF", "RESULTS")
+		y -= 12
+		for _, l := range body {
+			vWordLine(&in, "Helvetica", 50, y, 10, l...)
+			y -= 12
+		}
+	} else {
+		indent := []float64{80, 62, 110}[vAnyIntIn(0, 2)]
+		lines := []struct {
+			x float64
+			w []string
+		}{
+			{50, []string{"To", "upgrade", "the", "tool", "on", "a", "server", "follow", "these", "steps", "in", "order"}},
+			{50, []string{"*", "Install", "the", "package", "from", "the", "archive"}},
+			{indent, []string{"sudo", "make", "install"}},
+			{50, []string{"*", "Restart", "the", "service", "afterwards"}},
+			{50, []string{"When", "both", "steps", "are", "done", "the", "new", "version", "is", "active", "and", "the"}},
+		}
+		for _, l := range lines {
+			vWordLine(&in, "Helvetica", l.x, y, 10, l.w...)
+			y -= 12
+		}
+	}
+	res := NewAnalyzer().Analyze(in, 612, 792)
+	vAssert("analysis", res != nil)
+	got, want := "", ""
+	for _, e := range res.Elements {
+		got += e.Text + " "
+	}
+	for _, f := range in {
+		want += f.Text + " "
+	}
+	vObserveStr("elements", got)
+	vAssert("elements-carry-every-input-character-once", vSortedNonSpace(got) == vSortedNonSpace(want))
+	vReach("end")
+}
